@@ -349,8 +349,8 @@ impl UnOpCode {
             UnOpCode::Complement => !value.bits,
             UnOpCode::Not => if value.bits != 0 { 0 } else { 1 },
         };
-        Ok(WireValue { bits: new_value & value.width.mask(),
-                       width: if self == UnOpCode::Not { WireWidth::Bits(1) } else { value.width } })
+        let new_width = if self == UnOpCode::Not { WireWidth::Bits(1) } else { value.width };
+        Ok(WireValue { bits: new_value & new_width.mask(), width: new_width })
     }
 }
 
